@@ -136,6 +136,8 @@ type Frame struct {
 	defers   []*ssa.Defer
 	over     map[ssa.Value]Value
 	parent   *Frame
+	curBlk   *ssa.BasicBlock // position of the instruction being executed in this frame (for name lookup from inlined callees)
+	curIdx   int
 }
 
 // ---------------------------------------------------------------------------------------------
@@ -1035,6 +1037,7 @@ func (tr *Tr) execBlock(fr *Frame, b *ssa.BasicBlock, st *State, li *loopInfo) {
 			tr.curInstrIdx, tr.curBlock = idx, b
 			tr.sc.curBlock = b.Index
 		}
+		fr.curBlk, fr.curIdx = b, idx
 		if p := in.Pos(); p.IsValid() {
 			tr.curPos = p
 		}
